@@ -91,6 +91,11 @@ CHECKS = {
             "followed by restart-and-drain; concurrent client histories are checked with porcupine. Sampling, not proof.",
             "Simulated disk iterates in key order like badger; crash model is process death.",
             "DESIGN.md §5 C10", "stepsim"),
+    "C13": ("exploration",
+            "whole-node simulation under the synctest fake clock with the race detector: all background loops of an aggregator and a full node as real concurrent goroutines against simulated DA/execution/disk, seeded stimuli, latencies (time dilation), DA faults and stop instants; schedule-independent oracles",
+            "Per run the seed fixes block/DA times, lazy/normal mode, pending limit, genesis in the past or future, transaction arrivals, DA fault script, DA and execution latencies, run length and the stop instant (biased into the start-up delay). Oracles valid on every schedule: no race-detector report, every worker returns within 1 s of simulated time after the stop (never-stopping workers are reported through an emergency path), and post-mortem C01 chain validity, C02 prefix equality, C06 submission/watermark soundness, C07 finalize order and bound. Sampling of interleavings, not proof.",
+            "Interleavings are chosen by the Go scheduler (time dilation only spreads activities over simulated time): replay is seed-exact for stimuli and faults, best-effort for the interleaving (20 attempts). P2P transport is a gossip goroutine feeding harness-owned stores in this configuration.",
+            "DESIGN.md §4.5, §5 C13", "netsim"),
     "C14": ("exploration",
             "deterministic simulation: seeded op/crash/disk-error histories on the real store over a simulated journalled disk, checked against a map model",
             "Seeded operation histories (save/overwrite/set-height/state/metadata/reopen/crash inside an operation/injected disk error) run on the real DefaultStore over a simulated disk with a write journal; "
